@@ -5,6 +5,7 @@ Order1 == <<"A">>
 Hooks_none1 == ("A" :> {})
 Opts_plain == {[os |-> FALSE, ac |-> FALSE, pr |-> "N"]}
 Opts_lowprio == {[os |-> FALSE, ac |-> FALSE, pr |-> "N"], [os |-> FALSE, ac |-> FALSE, pr |-> "L"]}
+Opts_osonly == {[os |-> TRUE, ac |-> FALSE, pr |-> "N"]}
 Opts_os == {[os |-> FALSE, ac |-> FALSE, pr |-> "N"], [os |-> TRUE, ac |-> FALSE, pr |-> "N"]}
 Opts_all == {[os |-> FALSE, ac |-> FALSE, pr |-> "N"], [os |-> TRUE, ac |-> FALSE, pr |-> "N"], [os |-> FALSE, ac |-> TRUE, pr |-> "N"]}
 Tb_vals2 == {<<0, 0>>, <<2, 1>>, <<2, 2>>}
